@@ -373,6 +373,7 @@ class SolverProbe:
         self.error_script = error_script
         self.step_size_script = step_size_script
         self.select_calls = []
+        self.integrate_calls = []  # one entry per solver.integrate call: index ranges into steps / errors / updates
         self.grad_enabled_in_error = 0
 
     def _instrument(self, solver):
@@ -390,6 +391,19 @@ class SolverProbe:
             return y1, extra1
 
         solver.step = step
+        orig_integrate = solver.integrate
+
+        def integrate(y0, ts, extra0):
+            call = {"solver": idx, "ts": ts, "steps": [len(probe.steps), None], "errors": [len(probe.errors), None],
+                    "updates": [len(probe.updates), None], "grad_enabled": torch.is_grad_enabled()}
+            probe.integrate_calls.append(call)
+            try:
+                return orig_integrate(y0, ts, extra0)
+            finally:
+                call["steps"][1], call["errors"][1], call["updates"][1] = \
+                    len(probe.steps), len(probe.errors), len(probe.updates)
+
+        solver.integrate = integrate
         return solver
 
     @contextlib.contextmanager
